@@ -207,6 +207,8 @@ def normalize_l1(events):
         elif a == 'GCAt':
             out.append({'a': 'GCAt', 'n': n, 'point': e['point'], 'k': e.get('k', ''), 'c': int(e.get('c', -1)),
                         'off': int(e.get('off', -1))})
+        elif a == 'Cancel':
+            out.append({'a': 'Cancel', 'n': n, 'src': int(e.get('src', -1)), 'dst': int(e.get('dst', -1))})
         elif a == 'GC':
             if e.get('res') != 'ok' and 'rb' not in e:
                 out.append({'a': 'GCRefused', 'n': n, 'begin': e['begin'], 'end': e['end'], 'old': e.get('old') or {'_': True},
@@ -216,11 +218,14 @@ def normalize_l1(events):
                      for c, v in sorted((e.get('frame') or {}).items(), key=lambda kv: int(kv[0]))]
             # client writes between GCStart and this event (C18 speaks of passes without concurrent writes)
             conc_writes = False
+            cancelled = False       # C18 speaks of completed passes: a cancelled pass is not scanned for stale records
             for x in reversed(out):
                 if x['a'] == 'GCStart':
                     break
                 if x['a'] in ('Set', 'Incr'):
                     conc_writes = True
+                if x['a'] == 'Cancel' and x['src'] >= 0:
+                    cancelled = True
             g = {'a': 'GC', 'n': n, 'res': e.get('res', 'err'), 'rb': e.get('rb', -1), 're': e.get('re', -1),
                  'released': int(e.get('released', 0)), 'frame': frame, 'created': e.get('created') or [],
                  'head': e.get('head', -1), 'second': False, 'concurrent': conc_writes}
@@ -231,7 +236,7 @@ def normalize_l1(events):
                 files = [{'c': int(c), 'recs': [{'k': x[0], 'ver': x[1], 'val': x[2], 'off': x[3], 'nblk': x[4]} for x in l]}
                          for c, l in sorted(scan.items(), key=lambda kv: int(kv[0]))]
                 return {'a': 'Scan', 'n': n, 'rb': g['rb'], 're': g['re'], 'files': files, 'second': second,
-                        'concurrent': conc_writes}
+                        'concurrent': conc_writes or cancelled}
             if 'scan' in e:
                 out.append(scan_ev(e['scan'], False))
             if 'reads' in e:
